@@ -77,8 +77,37 @@ pub async fn verify_consecutive_append_only<TC: Configuration>(
         y
     }));
 
+    // The unchanged subtree roots and the inserted leaves must be pairwise unrelated by
+    // prefix: a node whose label extends (or equals) the label of another one would shadow
+    // it when the tree is rebuilt, silently dropping part of the earlier tree.
+    verify_prefix_free(&unchanged_with_inserted_nodes)?;
+
     verify_append_only_hash::<TC>(unchanged_with_inserted_nodes, end_hash, Some(end_epoch - 1))
         .await?;
+    Ok(())
+}
+
+/// Checks that no label in the set is a prefix of (or equal to) another label in the set.
+fn verify_prefix_free(nodes: &[AzksElement]) -> Result<(), AkdError> {
+    // Sorted by (bits, length), a label is immediately followed by one of its extensions
+    // if it has any, so it is enough to compare neighbours.
+    let mut labels = nodes
+        .iter()
+        .map(|node| node.label.get_prefix(node.label.label_len))
+        .collect::<Vec<_>>();
+    labels.sort_unstable_by(|a, b| {
+        a.label_val
+            .cmp(&b.label_val)
+            .then(a.label_len.cmp(&b.label_len))
+    });
+    for pair in labels.windows(2) {
+        if pair[0].is_prefix_of(&pair[1]) {
+            return Err(AkdError::AuditErr(AuditorError::VerifyAuditProof(format!(
+                "The proof contains node {} which is a prefix of node {}",
+                pair[0], pair[1]
+            ))));
+        }
+    }
     Ok(())
 }
 
